@@ -20,6 +20,17 @@ FLAG_BITS = (("carry", 0), ("zero", 1), ("negative", 2), ("interrupt_enable", 3)
 
 
 def check(ctx, prefix="pipeline"):
+    dp = control_part(ctx, prefix, words=None, flags=True)
+    flag_bits_and_frame(ctx, prefix)
+    accessors(ctx, prefix)
+    return dp
+
+
+def control_part(ctx, prefix, words=None, flags=False):
+    """Stage order, data path and commit stage. With `words`, the data-path clause is restricted to those control words and
+    (flags=False) the commit clause to the register write: the part of the agreement that the micro control flow of the
+    data-driven routines depends on (C09, C15) - operands, ALU function and write-back of the words of the MUL/DIV routines
+    and of every word whose next address tests an ALU condition."""
     p, chk, mt = ctx.p, ctx.chk, ctx.micro
     dp = datapath.build(p, mt, cache_dir=p.facts_dir)
     # 1. stage order inside one clock edge
@@ -39,7 +50,11 @@ def check(ctx, prefix="pipeline"):
            "raw/mod.rs RawMachine::trigger_clock_edge", "stage call blocks: %s" % {k.rsplit("::", 1)[-1]: v for k, v in pos.items()})
     # 2. back half per control word and register-selection class
     bad = []
+    nback = 0
     for (a, ir), r in sorted(dp["back"].items()):
+        if words is not None and a not in words:
+            continue
+        nback += 1
         e = datapath.expected_back(mt, a, ir)
         got = {k: r[k] for k in e}
         if got != e or r["bad"] or r["bot"]:
@@ -50,11 +65,11 @@ def check(ctx, prefix="pipeline"):
                "operand sources, ALU function, bus address/value and pending writes of the word are those of its control signals",
                "raw/mod.rs read_from_memory / calculate_alu_output / write_to_memory",
                "code does vs. signals say: %s %s" % (diff, b))
-    chk.ob("%s/data-path" % prefix, not bad and len(dp["back"]) >= 600,
+    chk.ob("%s/data-path" % prefix, not bad and (nback >= 600 if words is None else nback >= len(words) > 0),
            "for every programmed word and register-selection class the pipeline's operand provenance equals the "
            "register-transfer model (A := bus|Ra, B := const|Rb, carry-in := CF, read/write address := Ra, "
            "written value := ALU output, pending register/flag write := MRGWE/MCHFLG)",
-           "raw/mod.rs back-half stages", "%d (word, class) pairs, %d disagree" % (len(dp["back"]), len(bad)),
+           "raw/mod.rs back-half stages", "%d (word, class) pairs, %d disagree" % (nback, len(bad)),
            "abstract interpretation with opaque register tags and recording stand-ins for Bus::read/write, AluOutput::from_input")
     # 3. commit stage
     cbad = []
@@ -62,7 +77,7 @@ def check(ctx, prefix="pipeline"):
         want = ["R%d" % j if j != k else "ALUOUT" for j in range(8)]
         if k != 4:
             want[4] = "F(R4)"      # the flag update, applied to the old flag register; for k == 4 the register write wins (LDFR)
-        if (r["regs"] != want or r["flags"] != {"C": ["CO"], "Z": ["ZO"], "N": ["NO"]} or r["bad"]
+        if (r["regs"] != want or (flags and r["flags"] != {"C": ["CO"], "Z": ["ZO"], "N": ["NO"]}) or r["bad"]
                 or not r["prw_cleared"] or not r["pfw_cleared"]):
             cbad.append((k, r))
     chk.ob("%s/commit" % prefix, not cbad and len(dp["commit"]) == 9,
@@ -70,6 +85,11 @@ def check(ctx, prefix="pipeline"):
            "outputs - before the register write, so that a write to the flag register itself (LDFR) is not overlaid - and clears "
            "both pending markers",
            "raw/mod.rs RawMachine::apply_pending_register_writes", "disagreeing cases: %s" % cbad[:2])
+    return dp
+
+
+def flag_bits_and_frame(ctx, prefix):
+    p, chk, mt = ctx.p, ctx.chk, ctx.micro
     # 4. flag bit positions: setter and getter of each flag agree on one bit of R4, the others are kept
     fb = []
     for name, bit in FLAG_BITS:
@@ -100,8 +120,6 @@ def check(ctx, prefix="pipeline"):
            "raw/mod.rs RawMachine::trigger_clock_edge", "%d words analysed; words whose edge changes a register: %s"
            % (len(fr), [(hex(a), fr[a].get("regs_after")) for a in lost[:3]]),
            "abstract interpretation of the whole edge with eight opaque register tags, per programmed word")
-    accessors(ctx, prefix)
-    return dp
 
 
 def accessors(ctx, prefix="pipeline"):
